@@ -18,7 +18,9 @@ def t1_c_binding(ctx):
     ctx.require(len(cands) == 1, 'Teakra_Disasm_Do not found')
     f = cands[0]
     ctx.touch(f)
-    r = Renderer(f, inline_locals=False)
+    r = Renderer(f, inline_locals='pure')
+    from .. import boolform
+    FM = boolform.Former(f, renderer=r)
     params = [p['name'] for p in f['params']]
     ctx.require(len(params) == 4, 'Teakra_Disasm_Do signature changed')
     dst, dstlen = '$0', '$1'
@@ -33,7 +35,7 @@ def t1_c_binding(ctx):
         ctx.report(R, f, f['body'], 'text source', 'the text is not Disassembler::Do(opcode, expansion)')
         return
     rets = [r.r(n['e']) for n in walk(f['body']) if n.get('k') == 'return']
-    if rets != ['(call %s::length on l:%s )' % (STR, text)]:
+    if not rets or set(rets) != {'(call %s::length on l:%s )' % (STR, text)}:
         ctx.report(R, f, f['body'], 'return value', 'does not return the length of the text: %s' % rets)
     stores = []
     for n in walk(f['body']):
@@ -47,10 +49,10 @@ def t1_c_binding(ctx):
     for n, l in stores:
         ctx.inst(R)
         idx = r.r(l['idx'])
-        g = [(r.r(c), pol) for c, pol, src in guards_at(f['body'], n)]
+        pc = boolform.path_condition(f['body'], n, FM)
         inst = 'dst[%s]' % idx
-        if (dst, True) not in g or (dstlen, True) not in g and ('(!= %s 0)' % dstlen, True) not in g and ('(< 0 %s)' % dstlen, True) not in g:
-            ctx.report(R, f, n, inst, 'store into the caller buffer is not guarded by dst && dstlen: guards %s' % g)
+        if boolform.implies(pc, boolform.A(dst)) is not True or boolform.implies(pc, boolform.A(dstlen)) is not True:
+            ctx.report(R, f, n, inst, 'store into the caller buffer is not guarded by dst && dstlen: reached when %s' % boolform.show(pc)[:200])
             continue
         in_loop = [lp for lp in loops if any(x is n for x in walk(lp.get('body')))]
         if in_loop:
@@ -162,7 +164,9 @@ def t3_parser(ctx, R='C05.T3'):
     vn = 'l:' + var['name'] if var else '?'
     from ..absint import type_info
     ti = type_info(var.get('t')) if var else None
-    if not (init_ok and cond == '(< %s 65536)' % vn and inc in ('(++ %s)' % vn, '(post++ %s)' % vn) and ti and ti[0] > 16):
+    from ..loops import loop_range
+    rng = loop_range(f, lp)
+    if not (init_ok and rng and rng[1:] == (0, 65536, 1) and ti and ti[0] > 16):
         ctx.report(R, f, lp, 'GenerateParser range', 'opcode loop is not `for (wider-than-16-bit i = 0; i < 0x10000; ++i)`: init %s cond %s inc %s type %s'
                    % (r.s(lp.get('init')), cond, inc, var.get('t') if var else None))
     body = lp['body'].get('body', [])
@@ -172,7 +176,7 @@ def t3_parser(ctx, R='C05.T3'):
     ovar = None
     for st in body:
         for v in (st.get('vars', []) if st.get('k') == 'decl' else []):
-            if r.r(v.get('init')) == vn and v.get('t') == 'unsigned short':
+            if r.r(v.get('init')) == vn and type_info(v.get('t')) == (16, False):
                 ovar = 'l:' + v['name']
     if ovar is None:
         ctx.report(R, f, lp, 'GenerateParser opcode', 'the 16-bit opcode is not the loop variable itself')
@@ -241,7 +245,10 @@ def t3_parser(ctx, R='C05.T3'):
     ctx.touch(g)
     ctx.inst(R)
     rets = [render(n['e'], g, inline_locals=False) for n in walk(g['body']) if n.get('k') == 'return']
-    good = [x for x in rets if x.startswith('{(?: (. l:current Teakra::ParserImpl::Node::expansion) Teakra::Parser::Opcode::ValidWithExpansion Teakra::Parser::Opcode::Valid) (. l:current Teakra::ParserImpl::Node::opcode)}')]
+    import re as _re
+    pat = _re.compile(r'^\{\(\?: \(\. l:(\S+) Teakra::ParserImpl::Node::expansion\) Teakra::Parser::Opcode::ValidWithExpansion '
+                      r'Teakra::Parser::Opcode::Valid\) \(\. l:(\S+) Teakra::ParserImpl::Node::opcode\)\}')
+    good = [x for x in rets if (lambda m: m and m.group(1) == m.group(2))(pat.match(x))]
     bad = [x for x in rets if not x.startswith('{Teakra::Parser::Opcode::Invalid') and x not in good]
     if len(good) != 1 or bad:
         ctx.report(R, g, g['body'], 'ParserImpl::Parse', 'Parse returns something other than the stored opcode / expansion or Invalid: %s' % rets)
